@@ -22,6 +22,7 @@ type OpRec struct {
 	Chips int64  `json:"chips,omitempty"`
 	Err   string `json:"err,omitempty"`
 	Phase string `json:"phase"` // between | mid | paused | start
+	WasBusted bool `json:"was_busted,omitempty"` // add-on given to a player without chips
 	Hand  int    `json:"hand"`
 }
 
@@ -40,6 +41,7 @@ type Churn struct {
 	MidLeavePart   bool // a dealt-in player leaves mid-hand (recorded finding of C01/C02)
 	RandomSeat     bool
 	Batch          bool // batch leaves and UpdateTablePlayers calls
+	AddOnBusted    bool // add-ons to busted players between hands (the seat manager learns of them at the next continue)
 	ResumePaused   bool
 	MaxOpsPerPoint int
 }
@@ -138,6 +140,7 @@ func (p *Play) Rebuy(phase, id string, chips int64) OpRec {
 }
 
 func (p *Play) AddOn(phase, id string, chips int64) OpRec {
+	before, _ := p.bankrollNow(id)
 	err := p.SS.S.Redeem(id, chips)
 	if err == nil {
 		p.Exp[id] += chips
@@ -146,7 +149,7 @@ func (p *Play) AddOn(phase, id string, chips int64) OpRec {
 			p.HandTopups[id] += chips
 		}
 	}
-	return p.record(OpRec{Kind: "addon", ID: id, Chips: chips, Phase: phase}, err)
+	return p.record(OpRec{Kind: "addon", ID: id, Chips: chips, Phase: phase, WasBusted: before == 0}, err)
 }
 
 func (p *Play) Leave(phase, id string) OpRec {
@@ -256,6 +259,9 @@ func (p *Play) betweenOps(phase string) {
 		if ch.AddOn && len(alive) > 0 {
 			kinds = append(kinds, "addon")
 		}
+		if ch.AddOnBusted && len(busted) > 0 && phase == "between" {
+			kinds = append(kinds, "addon-busted")
+		}
 		if ch.BuyIn && len(free) > 0 {
 			kinds = append(kinds, "buyin", "buyin")
 		}
@@ -277,11 +283,15 @@ func (p *Play) betweenOps(phase string) {
 		// pick players to leave in one batch such that two seated-in players with chips remain
 		pickLeavers := func(max int) []string {
 			var out []string
-			rest := len(inAndChips(t))
+			liveSet := map[string]bool{}
+			for _, lid := range p.smLive() {
+				liveSet[lid] = true
+			}
+			rest := len(liveSet)
 			start := r.Intn(len(all))
 			for k := 0; k < len(all) && len(out) < max; k++ {
 				ps := t.State.PlayerStates[(start+k)%len(all)] // adjacent in the player list
-				live := ps.IsIn && ps.Bankroll > 0
+				live := liveSet[ps.PlayerID]
 				if live && rest <= 2 {
 					continue
 				}
@@ -333,6 +343,9 @@ func (p *Play) betweenOps(phase string) {
 			p.Rebuy(phase, busted[r.Intn(len(busted))], p.chipsAmount())
 		case "addon":
 			p.AddOn(phase, alive[r.Intn(len(alive))], p.chipsAmount())
+		case "addon-busted":
+			p.C.Feature("addon-to-busted-player-between-hands")
+			p.AddOn(phase, busted[r.Intn(len(busted))], p.chipsAmount())
 		case "buyin":
 			seat := free[r.Intn(len(free))]
 			if ch.RandomSeat && r.Intn(3) == 0 {
@@ -343,8 +356,8 @@ func (p *Play) betweenOps(phase string) {
 			// keep the table openable: never drop below two seated-in players with chips
 			id := all[r.Intn(len(all))]
 			rest := 0
-			for _, ps := range t.State.PlayerStates {
-				if ps.PlayerID != id && ps.IsIn && ps.Bankroll > 0 {
+			for _, lid := range p.smLive() {
+				if lid != id {
 					rest++
 				}
 			}
@@ -496,6 +509,25 @@ func sortedKeys(m map[string]int64) []string {
 	return k
 }
 
+// smLive lists the players the seat manager considers seated-in with chips (its has-chips flag lags behind an
+// add-on given to a busted player until the next continue).
+func (p *Play) smLive() []string {
+	st := p.SS.S.SM()
+	var ids []string
+	if st == nil {
+		return inAndChips(p.tableNow())
+	}
+	t := p.tableNow()
+	for _, ps := range t.State.PlayerStates { // table order, for determinism
+		for _, sp := range st.SeatData {
+			if sp != nil && sp.ID == ps.PlayerID && sp.IsIn && sp.HasChips && ps.IsIn && ps.Bankroll > 0 {
+				ids = append(ids, sp.ID)
+			}
+		}
+	}
+	return ids
+}
+
 // inAndChips lists seated-in players with chips on the engine's table.
 func inAndChips(t *pt.Table) []string {
 	var ids []string
@@ -556,13 +588,13 @@ func RunPlayCfg(c *h.Ctx, cfg h.TableCfg, po PlayOpts, mon *PlayMon) *Play {
 			mon.BeforeSignal(p)
 		}
 		// a hand can only open with two seated-in players with chips: let sitting-out players join, else stop here
-		if len(inAndChips(p.tableNow())) < 2 {
+		if len(p.smLive()) < 2 {
 			for _, ps := range p.tableNow().State.PlayerStates {
 				if !ps.IsIn && ps.Bankroll > 0 {
 					p.record(OpRec{Kind: "join", ID: ps.PlayerID, Phase: "between"}, ss.S.Join(ps.PlayerID))
 				}
 			}
-			if len(inAndChips(p.tableNow())) < 2 {
+			if len(p.smLive()) < 2 {
 				p.EndedShort = true
 				return p
 			}
@@ -572,7 +604,7 @@ func RunPlayCfg(c *h.Ctx, cfg h.TableCfg, po PlayOpts, mon *PlayMon) *Play {
 		if ss.Pending != nil && len(ss.Pending.Participants) < 2 {
 			t := p.tableNow()
 			parts := map[string]int{}
-			for i, id := range inAndChips(t) {
+			for i, id := range p.smLive() {
 				parts[id] = i
 			}
 			ss.SignalPending(nil) // let the declined gate fire
@@ -619,7 +651,7 @@ func RunPlayCfg(c *h.Ctx, cfg h.TableCfg, po PlayOpts, mon *PlayMon) *Play {
 			p.betweenOps("paused")
 			// resume like the competition layer does: set the next hand up explicitly
 			t := p.tableNow()
-			ids := inAndChips(t)
+			ids := p.smLive()
 			if len(ids) < 2 || len(t.AlivePlayers()) < t.Meta.TableMinPlayerCount {
 				return p
 			}
